@@ -21,6 +21,8 @@ git apply "$DEST/patch.diff"; applied=$?
 rc_patched=$(run_demo demo_patched.log)
 PYTHONPATH="$WT" timeout 2400 /venv/bin/python -m pytest -q -p no:cacheprovider --timeout=900 --continue-on-collection-errors --junitxml="$DEST/suite.xml" pynenc_tests > "$DEST/suite.log" 2>&1
 suite_rc=$?
+# the suite's kill/stop/signal tests leak runner worker processes (re-parented to pid 1, polling for ever): remove ours
+for p in $(pgrep -f python); do [ "$(readlink /proc/$p/cwd 2>/dev/null)" = "$WT" ] && [ "$p" != "$$" ] && kill -9 $p 2>/dev/null; done
 python3 /verif/tools/baseline_cmp.py "$DEST/suite.xml" > "$DEST/suite_cmp.txt" 2>&1
 cmp_rc=$?
 python3 - <<PY
